@@ -45,6 +45,9 @@ func verifArbMap() (map[string]interface{}, error) {
 	if verifapi.Bool("json.err") {
 		return nil, verifErrJSON
 	}
+	if verifapi.Bool("json.null") {
+		return nil, nil // the JSON literal null leaves the map nil without an error
+	}
 	m := map[string]interface{}{}
 	if verifapi.Bool("has.type") {
 		m["type"] = verifArbJSON("type")
